@@ -10,11 +10,12 @@
                                       _volume_changed (incl. the echo of its own dispatch)
      pyatv/protocols/mrp/__init__.py  MrpAudio.volume / set_volume / volume_up / volume_down
 
-   The arithmetic is written ONCE, over an abstract number domain [Dom]; the three
+   The arithmetic is written ONCE, over an abstract number domain [Dom]; the
    domains are instances:
        DQ  exact rationals            (this file)       - the formula
        DF  Coq primitive binary64     (this file)       - executed, compared bit for bit with Python
        DR  reals with every operation rounded to binary64 by Flocq's [round]   (ModelR.v)
+       DB  Flocq's bit-level binary64 (ModelB.v)        - executed AND proved to refine DR (LinkB.v)
    The translator (harness/c20.py gen) re-emits the same functions from the Python ast
    as ONE deep-embedded tree per function (coq/C20/Gen.v); [run] below is the single
    interpreter for all domains, and Tie.v proves [run D Gen.f = f D] for every D.
